@@ -1,4 +1,5 @@
 import Bardic.Driver.Obs
+import Bardic.Driver.ParserRun
 import Bardic.Driver.StdlibRun
 import Bardic.Driver.CodecRun
 import Bardic.Driver.IncludeRun
@@ -113,6 +114,7 @@ def handle (line : String) : String :=
     | "codec" => (runCodec j).compress
     | "include" => (runInclude j).compress
     | "graph" => (runGraph j).compress
+    | "pcomp" => (runPcomp j).compress
     | "strip" =>
       let p := Bardic.Parser.stripStr (getStr j "line")
       (jObj [("id", (j.getObjVal? "id").toOption.getD .null), ("content", .str p.1), ("comment", .str p.2)]).compress
